@@ -27,7 +27,7 @@ RULE = (
 ASSUMPTIONS = ["asyncio.StreamReader semantics are CPython 3.12's", "reference framing in this module/refwire"]
 FLOORS = {"quick": {"streams_read": 100000, "exhaustive_cutsets": 2 ** 15 + 2 ** 16 + 2 ** 17, "truncations": 1200,
                     "corruptions": 400, "schedule_A": 12000, "schedule_B": 100000, "messages_compared": 100000,
-                    "datagram_decoder_agreement": 2000}}
+                    "datagram_decoder_agreement": 2000, "streams_read_next_to_a_second_connection": 2000}}
 
 
 def expected_sequence(b: bytes):
@@ -72,13 +72,61 @@ def datagram_sequence(H, b: bytes):
     return out
 
 
+# schedule "C": the stream under test is not alone in its process - a second connection (this fixed stream, in chunks whose size
+# depends on the stream under test) is read by another reader in the same loop, fed alternately, and a datagram is decoded between
+# the chunks; each stream must still read as if it were alone
+COMPANION = b"".join(refwire.encode_someip(dict(sid=0xC0 + i, mid=0x0C00 + i, cid=0xCC, sess=0x700 + i, iv=9, mt=2, rc=0,
+                                                payload=bytes([0xC0 + i]) * L)) for i, L in enumerate((5, 0, 33, 1, 200, 0)))
+DATAGRAM = refwire.encode_someip(dict(sid=0xD0D0, mid=0x0D0D, cid=0xDD, sess=0xD1, iv=0xD, mt=0x81, rc=4, payload=b"datagram"))
+
+
 def read_stream(loop, H, chunks, schedule):
     """feed chunks into a real StreamReader and read message by message"""
     reader = asyncio.StreamReader(loop=loop)
     R = H.SOMEIPReader(reader)
     results = []
 
-    async def consume():
+    def consumer(R, results):
+        return _consume(H, R, results)
+
+    if schedule == "C":
+        reader2 = asyncio.StreamReader(loop=loop)
+        results2 = []
+        step = 1 + sum(len(c) for c in chunks) % 23
+        comp = [COMPANION[i:i + step] for i in range(0, len(COMPANION), step)]
+        t1 = loop.create_task(consumer(R, results))
+        t2 = loop.create_task(consumer(H.SOMEIPReader(reader2), results2))
+        pending = list(chunks)
+
+        def feed():
+            if pending:
+                reader.feed_data(pending.pop(0))
+            if comp:
+                reader2.feed_data(comp.pop(0))
+            try:
+                H.SOMEIPHeader.parse(DATAGRAM)
+            except Exception as exc:  # noqa: B902
+                results2.append(("other-exception", "datagram decode between chunks: " + repr(exc)))
+            if pending or comp:
+                loop.call_soon(feed)
+            else:
+                reader.feed_eof()
+                reader2.feed_eof()
+
+        loop.call_soon(feed)
+        for t in (t1, t2):
+            try:
+                loop.run_until_complete(t)
+            except RuntimeError as exc:
+                results.append(("reader-hangs", repr(exc)))
+        return results, results2
+
+    consume = lambda: consumer(R, results)  # noqa: E731
+    return _read_alone(loop, reader, consume, chunks, schedule, results)
+
+
+async def _consume(H, R, results):
+    if True:
         while True:
             try:
                 m = await R.read()
@@ -99,6 +147,8 @@ def read_stream(loop, H, chunks, schedule):
                 return
             results.append(("msg", lib_to_dict(m)))
 
+
+def _read_alone(loop, reader, consume, chunks, schedule, results):
     if schedule == "A":
         for c in chunks:
             reader.feed_data(c)
@@ -143,7 +193,18 @@ def check(loop, H, total: bytes, cuts, schedule, ctx, replay, compare_datagram=F
     chunks.append(total[last:])
     chunks = [c for c in chunks if c] or []
     exp = expected_sequence(total)
-    got = fix_eof(read_stream(loop, H, chunks, schedule), total, exp)
+    got = read_stream(loop, H, chunks, schedule)
+    if schedule == "C":
+        got, got2 = got
+        exp2 = expected_sequence(COMPANION)
+        got2 = fix_eof(got2, COMPANION, exp2)
+        ctx.count("streams_read_next_to_a_second_connection")
+        if got2 != exp2:
+            i = next((i for i, (g, e) in enumerate(itertools.zip_longest(got2, exp2)) if g != e), 0)
+            ctx.violation("second-stream-in-the-same-loop-reads-differently", dict(
+                index=i, got=got2[i] if i < len(got2) else None, expected=exp2[i] if i < len(exp2) else None,
+                stream_len=len(total), cuts=list(cuts)[:40]), replay)
+    got = fix_eof(got, total, exp)
     ctx.count("streams_read")
     ctx.count("schedule_" + schedule)
     ctx.count("messages_compared", sum(1 for e in exp if e[0] == "msg"))
@@ -273,7 +334,7 @@ def _run(spec, ctx, H, rng, loop):
             total = b"".join(refwire.encode_someip(x) for x in msgs)
             assert len(total) <= 64
             for a in range(1, len(total)):
-                for sch in "AB":
+                for sch in "ABC":
                     check(loop, H, total, [a], sch, ctx, dict(total=total, cuts=[a], schedule=sch))
                 ctx.case(("short1", lens, a), True)
                 for b in range(a + 1, len(total)):
@@ -314,7 +375,7 @@ def _run(spec, ctx, H, rng, loop):
             cuts = sorted(set(cuts))
         else:
             cuts = sorted(set(rng.randrange(1, n) for _ in range(rng.choice((0, 1, 2, 3, 8, 40))))) if n > 1 else []
-        sch = "B" if rng.random() < 0.8 else "A"
+        sch = rng.choice("BBBBBBCCCA")
         check(loop, H, total, cuts, sch, ctx, dict(total=total, cuts=cuts, schedule=sch), compare_datagram=True)
         ctx.case(("rand", tuple(len(x["payload"]) for x in msgs), tuple(cuts[:50]), extra, sch),
                  bool(cuts) or extra is not None,
